@@ -127,6 +127,21 @@ func init() {
 			call(fr.i, fr, 0, a[0], nil)
 			return false
 		},
+		// vOffer(ch, v): a sender is waiting on ch with v (works for unbuffered channels: the value sits in the
+		// model's buffer until a receive or select takes it)
+		"vOffer": func(fr *frame, a []value) value {
+			ch := a[0].(iface).v.(*vchan)
+			v := a[1]
+			if _, isIface := ch.elem.Underlying().(*types.Interface); !isIface {
+				v = a[1].(iface).v
+			}
+			ch.buf = append(ch.buf, v)
+			return nil
+		},
+		"vExpectRecv": func(fr *frame, a []value) value {
+			a[0].(iface).v.(*vchan).recvWaiting++
+			return nil
+		},
 		"vIsEngine": func(fr *frame, a []value) value { return true },
 		"vNumSpawned": func(fr *frame, a []value) value {
 			return len(fr.i.x.spawned)
